@@ -187,7 +187,10 @@ func runC14(r *ev.Run) {
 		// data then decodes stored codes against moved centroids)
 		scribbleAt := -1
 		if rng.IntN(2) == 0 {
-			scribbleOver(trainBuffers)
+			if scribbleAndCheck(s.idx, trainBuffers) {
+				rep(kind+".trained-state-aliases-training-data", "centroids / codebooks changed when the caller overwrote its training vectors after Train had returned")
+				return
+			}
 		} else {
 			scribbleAt = 2 + rng.IntN(6)
 		}
